@@ -70,7 +70,7 @@ def build_harness():
         open(os.path.join(hdir2, "go.mod"), "w").write(gm)
         hdir = hdir2
     shutil.copy(os.path.join(REPO, "go.sum"), os.path.join(hdir, "go.sum"))
-    cover = ["-cover", "-coverpkg=github.com/jessevdk/go-flags"] if os.environ.get("VERIF_COVER") else []
+    cover = ["-cover", "-coverpkg=./...,github.com/jessevdk/go-flags"] if os.environ.get("VERIF_COVER") else []
     if cover:
         # statement coverage of go-flags under the correspondence streams (bin/coverage); counters go to GOCOVERDIR
         os.makedirs(os.environ.get("GOCOVERDIR", os.path.join(BUILD, "cover")), exist_ok=True)
